@@ -254,7 +254,7 @@ def gen(ck):
                     for f in [0, 255]:
                         for sf in range(0, 100, 33 if not thorough else 1):
                             add(('smpte_offset', {'frame_rate': fr, 'hours': h, 'minutes': mi, 'seconds': s, 'frames': f, 'sub_frames': sf}))
-    lens = [0, 1, 127, 128, 129, 16383, 16384] + ([10 ** 6] if thorough else [])
+    lens = [0, 1, 127, 128, 129, 16383, 16384, 32767, 32768, 70001] + ([10 ** 6] if thorough else [])
     for t in metas.TEXT_TYPES:
         attr = metas.META[t][1][0][0]
         for ln in lens:
@@ -262,7 +262,7 @@ def gen(ck):
                 continue
             txt = ''.join(chr(rng.choice([65, 97, 32, 0xe9, 0xff, 0, 0x7f, 0x80])) for _ in range(ln))
             add((t, {attr: txt}))
-        for v in ['snow☃man', 'café', '\ufeffLa la', '\xef\xbb\xbfLa la', '\xef\xbb\xbf', 'La\ufeff', '\ufeff'] + WRONG:
+        for v in ['Piano\x00', '\x00lead\x00\x00', ' pad ', 'x\x00y', '\x00', 'snow☃man', 'café', '\ufeffLa la', '\xef\xbb\xbfLa la', '\xef\xbb\xbf', 'La\ufeff', '\ufeff'] + WRONG:
             add((t, {attr: v}))
     for ln in lens:
         data = [rng.choice([0, 1, 127, 128, 255, rng.randrange(256)]) for _ in range(ln)]
